@@ -76,3 +76,25 @@ func (s snap) changed(m proto.Message) string {
 	}
 	return ""
 }
+
+// ownNodes collects every message reachable in m (pointer identity).
+func ownNodes(m protoreflect.Message, set map[any]bool, depth int) {
+	if depth > 40 {
+		return
+	}
+	set[m.Interface()] = true
+	m.Range(func(f protoreflect.FieldDescriptor, v protoreflect.Value) bool {
+		if f.Message() == nil {
+			return true
+		}
+		if f.IsList() {
+			l := v.List()
+			for i := 0; i < l.Len(); i++ {
+				ownNodes(l.Get(i).Message(), set, depth+1)
+			}
+			return true
+		}
+		ownNodes(v.Message(), set, depth+1)
+		return true
+	})
+}
